@@ -20,7 +20,8 @@ LEVEL = "exploration"
 RULE = (
     "Hypothesis-generated PipeLang programs (up to 8 functions; nested keeps, kept nodes shared by several parents, the same "
     "callee kept at two paths, keeps with run-time arguments), two planted shapes (a chain of run-time keeps followed by a helper "
-    "that reaches a chain node again; a kept function loading a path it already depends on through other kept functions) and load pipelines (load inside a kept function or its helper, "
+    "that reaches a chain node again; a kept function loading a path it already depends on through other kept functions; a kept function whose "
+    "keeps - one without arguments followed by run-time ones - sit in a plain helper) and load pipelines (load inside a kept function or its helper, "
     "producer earlier in the same or in an earlier evaluation); each is evaluated with dds_export_graph=<file>.plain "
     "(full run, analysis-only run, extra debug on/off) and without; the parsed graph must be acyclic, its node set must be "
     "exactly the kept paths of the evaluation plus the paths loaded by kept functions, its solid edges exactly the pairs "
@@ -189,6 +190,20 @@ def planted(kind, a, b, c):
         hp = add("hp", hb, params=[["x", M.NO]])
         body.append(["call", hp, "bare", [["loc", n if back == 0 else back - 1, "pos"]]])
         root = add("root", body)
+    elif kind == "helperchain":
+        # a kept function reaches its keeps through `b` plain helpers; in the innermost one a keep without arguments is followed by
+        # `a` keeps with run-time arguments
+        n, depth, wrap = max(1, a), 1 + b % 2, c
+        f0 = add("fa", [["ext", 0]])
+        body = [["keep", "/h0", f0, "bare", []]]
+        for i in range(n):
+            g = add(f"g{i}", [["ext", 1]], params=[["x", M.NO]])
+            body.append(["keep", f"/h{i + 1}", g, "bare", [["loc", i, "pos"]]])
+        prev = add("hp0", body)
+        for d in range(1, depth):
+            prev = add(f"hp{d}", [["call", prev, "bare", []]])
+        v = add("v", [["call", prev, "bare", []]], data="/v")
+        root = add("root", [["call", v, "bare", []]]) if wrap else v
     else:
         depth, wrap, extra = a, b, c
         prev = add("p", [["ext", 0]], data="/p")
@@ -211,6 +226,8 @@ def case_strategy(opts):
         if sel == 9:
             return {"planted": ["chain", draw(st.integers(1, 4)), draw(st.integers(0, 4)), draw(st.booleans())]}
         if sel == 8:
+            if draw(st.booleans()):
+                return {"planted": ["helperchain", draw(st.integers(1, 3)), draw(st.integers(0, 1)), draw(st.booleans())]}
             return {"planted": ["loadchain", draw(st.integers(0, 3)), draw(st.booleans()), draw(st.booleans())]}
         if sel < 2:
             placement = draw(st.sampled_from(["kept", "kept_helper", "kept", "root"]))
